@@ -383,6 +383,11 @@ class Translator:
             f = self.spec.get("attr_funcs", {}).get((x.typ, node.attr))
             if f is not None:
                 return V(f"({f[0]} {x.term})", f[1])
+        elif self.spec.get("attr_funcs") and not isinstance(node.value, ast.Name):
+            x = self.expr(node.value, env)
+            f = self.spec["attr_funcs"].get((x.typ, node.attr))
+            if f is not None:
+                return V(f"({f[0]} {x.term})", f[1])
         self.bad(node, "attribute read that the spec does not list as a place or constant")
 
     def e_Tuple(self, node, env):
@@ -534,6 +539,8 @@ class Translator:
         if op == "Mult" and ((is_int(a.typ) and b.typ in ("Str", "Bytes")) or (a.typ in ("Str", "Bytes") and is_int(b.typ))):
             n, x = (a, b) if is_int(a.typ) else (b, a)
             return V(f"(PyRt.repeatSeq {self.to_int(n)} {x.term})", x.typ)          # a count ≤ 0 gives the empty sequence
+        if op == "Div" and a.typ == "Layers" and b.typ == "Layers":
+            return V(f"({a.term} ++ {b.term})", "Layers")            # scapy: `/` stacks the layers
         if op == "BitOr" and a.typ.startswith("Set ") and a.typ == b.typ:
             return V(f"({a.term} ++ {b.term})", a.typ)        # a list standing for the set; a set is only ever asked `in`
         if not (is_int(a.typ) and is_int(b.typ)):
@@ -641,6 +648,8 @@ class Translator:
                 return f"({neg}({a.term}).isNone)"
             if b.typ == "Bool" and a.typ == "Bool" and b.term in ("true", "false"):
                 return f"({neg}decide ({a.term} = {b.term}))"
+            if b.typ == "NoneType" and a.typ not in ("NoneType", "EmptyDict", "EmptyList") and not a.typ.startswith("Option "):
+                return "true" if o == "IsNot" else "false"          # the spec types this value as never None
             self.bad(node, f"`is` between {a.typ} and {b.typ}")
         if o in ("Eq", "NotEq"):
             rel = "=" if o == "Eq" else "≠"
@@ -883,6 +892,13 @@ class Translator:
             if x.typ == "Bytes" or x.typ.startswith("List "):
                 return V(f"(!(List.isEmpty {x.term}))", "Bool")
             self.bad(node, f"bool() of {x.typ}")
+        if fname in ("bytes", "bytearray") and not node.args and not kw:
+            return V("([] : Bytes)", "Bytes")
+        if isinstance(f, ast.Attribute) and f.attr == "encode" and not node.args and not kw:
+            x = self.expr(f.value, env)
+            if x.typ != "Str":
+                self.bad(node, f"encode() of {x.typ}")
+            return V(self.hoist(f"PyRt.utf8E {x.term}", "Bytes", node), "Bytes")
         if fname in ("bytes", "bytearray", "copy.deepcopy") and len(node.args) == 1 and not kw:
             # a bytes-like VALUE: the copy is the same value (mutation is only translated for locals this function created)
             x = self.expr(node.args[0], env)
@@ -1167,7 +1183,7 @@ class Translator:
         v, hs = self.eval(st.value, env)
         if isinstance(tg, ast.Name):
             fresh = (isinstance(st.value, ast.Call) and self.key(st.value.func) in ("bytearray", "copy.deepcopy")
-                     and v.typ == "Bytes")
+                     and v.typ == "Bytes")          # (also `bytearray()`)
             (self.owned.add if fresh else self.owned.discard)(tg.id)
 
         def inner():
@@ -1425,6 +1441,11 @@ class Translator:
                 and not c.keywords and isinstance(c.func.value, ast.Name) and c.func.value.id in self.owned
                 and c.func.value.id in env):
             v, hs = self.eval(c.args[0], env)
+            if v.typ == "Option Bytes":
+                # `extend(None)` is a TypeError
+                saved, self.hoists = self.hoists, list(hs)
+                v = V(self.hoist(f"PyRt.someE PyRt.Err.type {v.term}", "Bytes", st), "Bytes")
+                hs, self.hoists = self.hoists, saved
             if v.typ != "Bytes":
                 self.bad(st, f"extend() with {v.typ}")
             x = env[c.func.value.id]
@@ -1455,15 +1476,18 @@ class Translator:
                 t = None
             finally:
                 self.hoists, self.tmp = saved
-            if t is None or not is_int(t):
+            if t == "Option Bool":
+                new = ast.Compare(left=node, ops=[ast.Eq()], comparators=[ast.Constant(value=True)])      # None and False are falsy
+            elif t is None or not is_int(t):
                 return node
-            new = ast.Compare(left=node, ops=[ast.NotEq()], comparators=[ast.Constant(value=0)])
+            else:
+                new = ast.Compare(left=node, ops=[ast.NotEq()], comparators=[ast.Constant(value=0)])
         ast.copy_location(new, node)
         ast.fix_missing_locations(new)
         return new
 
     def s_If(self, st, rest, env, frame):
-        if isinstance(st.test, (ast.BoolOp, ast.UnaryOp)):
+        if isinstance(st.test, (ast.BoolOp, ast.UnaryOp, ast.Name, ast.Attribute)):
             cond = self.as_condition(st.test, env)
             if cond is not st.test:
                 st = ast.copy_location(ast.If(test=cond, body=st.body, orelse=st.orelse), st)
@@ -1720,8 +1744,6 @@ class Translator:
                         yield from own(c.body)
         has_ret = any(isinstance(x, ast.Break) for x in own(st.body))
         for n in ast.walk(ast.Module(body=st.body, type_ignores=[])):
-            if isinstance(n, ast.Continue):
-                self.bad(n, "continue inside a loop body")
             if isinstance(n, (ast.For, ast.While)) and any(isinstance(m, ast.Return) for m in ast.walk(n)):
                 self.bad(n, "return inside a nested loop")
             has_ret = has_ret or isinstance(n, ast.Return)
@@ -1807,8 +1829,9 @@ class Translator:
             loop = f"PyRt.whileS {fuel} {init} {cf} {fn}"
         else:
             fn = f"(fun (py_s : {sty}) {binder} =>\n{ind(unpack + pre + body, 4)})"
-            if self.spec.get("split_loops") and not step and not body_raises:
-                fn = self.split_loop(st, env, sty, binder, unpack + pre + body, [b[0] for b in bound], mod)
+            if self.spec.get("split_loops"):
+                rty = (f"Except PyRt.Err (PyRt.Step ({sty}) (\0RTYPE\0))" if step else (f"Except PyRt.Err ({sty})" if body_raises else sty))
+                fn = self.split_loop(st, env, sty, binder, unpack + pre + body, [b[0] for b in bound], mod, rty)
             loop = mk(init, fn, step)
         if step:
             return (f"PyRt.loopS ({loop}) (fun py_e => {frame.raise_('py_e', env)}) (fun py_r => py_r) (fun py_s =>\n"
@@ -1819,7 +1842,7 @@ class Translator:
                     + after() + ")")
         return (f"let py_s : {sty} := List.foldl {fn} {init} {lst}\n" + unpack + self.block(rest, env2, frame))
 
-    def split_loop(self, st, env, sty, binder, body, bound_names, mod):
+    def split_loop(self, st, env, sty, binder, body, bound_names, mod, rty):
         """spec `split_loops`: the round of a pure `for` fold becomes a definition of its own (`<name>.loop<k>`), with the names
         it uses from outside as parameters — the main definition stays small and lemmas can name the round"""
         import re
@@ -1847,7 +1870,7 @@ class Translator:
         sig = " ".join(f"({n} : {ty(t)})" for n, t in params)
         tp = "".join(f"{{{t} : Type}} " for t in self.spec.get("tparams", ()))
         self.aux_defs = getattr(self, "aux_defs", [])
-        self.aux_defs.append(f"def {nm} {tp}{sig} (py_s : {sty}) {binder} : {sty} :=\n{ind(body)}\n")
+        self.aux_defs.append(f"def {nm} {tp}{sig} (py_s : {sty}) {binder} : {rty} :=\n{ind(body)}\n")
         return "(" + " ".join([nm] + [n for n, _ in params]) + ")"
 
     def state_name(self, m):
@@ -1954,7 +1977,7 @@ class LoopFrame(Frame):
             self.tr.bad(node, "return inside a loop body")
         return f".ok (.ret {self.parent.ret(val, env, node)})"
 
-    def cont(self, env, node): self.tr.bad(node, "continue inside a loop body")
+    def cont(self, env, node): return self.fall(env)          # `continue`: the round ends here, with the state as it is
     def raise_(self, e, env):
         if self.keeps and self.parent is not None:
             return f".ok (.ret {self.parent.raise_(e, env)})"
@@ -2240,7 +2263,7 @@ def _translate(tr, func, spec, assume_raises):
     if tr.state is not None:
         binders.append((tr.state["param"], tr.state["type"]))
     sig = "".join(f"{{{t} : Type}} " for t in spec.get("tparams", ())) + " ".join(f"({n} : {ty(t)})" for n, t in binders)
-    out.extend(getattr(tr, "aux_defs", []))
+    out.extend(a.replace("\0RTYPE\0", rtype) for a in getattr(tr, "aux_defs", []))
     out.append(f"def {tr.name} {sig} : {rtype} :=\n{ind(text)}\n")
     return "\n".join(out)
 
